@@ -629,7 +629,7 @@ class ConformationContainer:
             self.atoms[i].numb = i+1
 
     @staticmethod
-    def sort_atoms_key(atom: "Atom") -> float:
+    def sort_atoms_key(atom: "Atom") -> tuple:
         """Generate key for atom sorting.
 
         Args:
@@ -637,8 +637,10 @@ class ConformationContainer:
         Returns:
             key for atom
         """
-        key = ord(atom.chain_id) * UNICODE_MULTIPLIER
-        key += atom.res_num * RESIDUE_MULTIPLIER
+        # compare chain, residue number and atom-name character one after
+        # the other; folding them into one number lets negative or large
+        # residue numbers reach into the range of the neighbouring chain
+        name_key = 0
         if len(atom.name) > len(atom.element):
-            key += ord(atom.name[len(atom.element)])
-        return key
+            name_key = ord(atom.name[len(atom.element)])
+        return (ord(atom.chain_id), atom.res_num, name_key)
